@@ -8,9 +8,11 @@ mod c03;
 mod c08;
 mod c10;
 mod c18;
+mod c20;
 mod c11;
 mod c12;
 mod c13;
+mod c14;
 mod c15;
 mod c16;
 mod c17;
@@ -73,6 +75,9 @@ fn main() {
     "c08" => c08::run_all(cases),
     "c18" => run_parallel(cases, c18::run_case, 8),
     "c13" => cases.iter().map(c13::run_case).collect(),
+    "c14" => run_parallel(cases, c14::run_case, 8),
+    "c14seq" => cases.iter().map(c14::run_case).collect(),
+    "c20" => c20::run_all(cases),
     "c15" => run_parallel(cases, c15::run_case, 8),
     "c16" => {
       c16::install_panic_counter();
